@@ -11,6 +11,7 @@ import (
 	"encoding/json"
 	"fmt"
 	"os"
+	"regexp"
 	"os/exec"
 	"path/filepath"
 	"sort"
@@ -53,7 +54,7 @@ var hostile = map[string]string{
 	"sqwrap": "'it's; x'", "dqwrap": `"a";"b"`, "sqpair": "'a';'b'",
 }
 
-var placements = []string{"table-name", "column-name", "index-name", "fk-name", "check-name", "default", "default-hcl", "default-dq", "default-estring", "column-comment", "table-comment", "check-literal", "enum-value", "index-predicate"}
+var placements = []string{"table-name", "column-name", "index-name", "fk-name", "check-name", "default", "default-hcl", "default-dq", "default-estring", "column-comment", "table-comment", "check-literal", "enum-value", "index-predicate", "check-estring", "predicate-estring"}
 
 func placeKind(p string) string {
 	switch p {
@@ -91,7 +92,7 @@ func applicable(d, place string) bool {
 		return d != "sqlite"
 	case "index-predicate":
 		return d != "mysql"
-	case "default-estring":
+	case "default-estring", "check-estring", "predicate-estring":
 		return d == "postgres"
 	case "default-dq":
 		return d == "sqlite"
@@ -160,6 +161,13 @@ func build(d string, feats []Feat) *schema.Schema {
 		case "default-estring":
 			// a raw PostgreSQL escape-string literal, as a user may write it in `sql("…")` / inspect it
 			v.SetDefault(&schema.RawExpr{X: "E'" + strings.NewReplacer(`\`, `\\`, "'", `\'`, "\n", `\n`, "\r", `\r`).Replace(val) + "'"})
+		case "check-estring":
+			// an escape string right after an opening parenthesis / a comma (no blank before the E)
+			e := "E'" + strings.NewReplacer(`\`, `\\`, "'", `\'`, "\n", `\n`, "\r", `\r`).Replace(val) + "'"
+			t1.AddChecks(schema.NewCheck().SetName("ck_es").SetExpr("(" + e + " <> v AND v <> ALL (ARRAY[" + e + "," + e + "]))"))
+		case "predicate-estring":
+			e := "E'" + strings.NewReplacer(`\`, `\\`, "'", `\'`, "\n", `\n`, "\r", `\r`).Replace(val) + "'"
+			idx.AddAttrs(&postgres.IndexPredicate{P: "(" + e + "<>v)"})
 		case "column-comment":
 			v.SetComment(val)
 		case "table-comment":
@@ -509,6 +517,8 @@ func key(cs Case, class string) string {
 // reader/formatter limitations that do not depend on which hostile string triggered them; "" means
 // no such mechanism applies and the finding is keyed by its features. The rules look only at the
 // planned statements, never at the verdict.
+var reEString = regexp.MustCompile(`(^|[^A-Za-z0-9_])E'`)
+
 func rootCause(cs Case) string {
 	plan, err := planFor(cs)
 	if err != nil || plan == nil {
@@ -556,7 +566,7 @@ func rootCause(cs Case) string {
 	}):
 		return "reader-not-dialect-aware:mysql-backslash-escapes"
 	case rk != "dialect-scanner" && cs.Dialect == "postgres" && any(cmds, func(x string) bool {
-		return strings.Contains(x, " E'") && strings.Contains(x, `\`)
+		return reEString.MatchString(x) && strings.Contains(x, `\`)
 	}):
 		return "reader-not-dialect-aware:postgres-escape-string"
 	}
@@ -641,6 +651,9 @@ func run(c *rt.Ctx) {
 				for _, sc := range []string{"drop", "modify", "unmodify", "alter"} {
 					cases = append(cases, Case{Dialect: d, Feats: fe, Scenario: sc, Formatter: "atlas", Indent: "  "})
 				}
+				// the atlas format with a delimiter directive (the dialect's scanner must still be the one
+				// that reads the file back)
+				cases = append(cases, Case{Dialect: d, Feats: fe, Scenario: "create", Formatter: "atlas", Delim: "$$"})
 			}
 		}
 	}
